@@ -30,8 +30,8 @@ theorem C04_main (w : World) (id : ConnIdent) (req : Req) (ts : TunnelState) (hw
   unfold holds
   by_cases hr : openTunnel w id req ts = refuse
   · rw [hr]; simp [refuse, Outcome.obs]
-  · obtain ⟨hc, ha, hm⟩ := passed_of_not_refused hr
-    rw [entitled_of_passed hwf hc ha hm]; rfl
+  · obtain ⟨cc, hf, ha, hm⟩ := passed_of_not_refused hr
+    rw [entitled_of_passed hwf hf ha hm]; rfl
 
 /-- **C04, tunnel state changing during the request.**  `late` is whatever bridge or waiting route appears
 (for any mapping, on this or another node) while a request that found nothing at arrival is polling, or —
@@ -45,8 +45,8 @@ theorem C04_main_dyn (w : World) (id : ConnIdent) (req : Req) (ts : TunnelState)
   unfold holdsDyn holds
   by_cases hr : openTunnelDyn w id req ts late = refuse
   · rw [hr]; simp [refuse, Outcome.obsDyn]
-  · obtain ⟨hc, ha, hm⟩ := passed_of_not_refused_dyn hr
-    have he := entitled_of_passed hwf hc ha hm
+  · obtain ⟨cc, hf, ha, hm⟩ := passed_of_not_refused_dyn hr
+    have he := entitled_of_passed hwf hf ha hm
     rw [he]
     simp only [Bool.true_or, Bool.true_and]
     -- where is it attached?
@@ -67,14 +67,19 @@ theorem C04_main_dyn (w : World) (id : ConnIdent) (req : Req) (ts : TunnelState)
             simp [Outcome.obsDyn, hat] at hd ⊢
           · have hmm := late_attach_mapping hat
             have he' : entitledB w id req (.remote m n) = true :=
-              entitled_of_passed hwf hc ha (by simpa [tunnelMappingID] using hmm)
+              entitled_of_passed hwf hf ha (by simpa [tunnelMappingID] using hmm)
             have hns : (handleTargetBridge w req (.route m n b)).attach ≠ .source := by
               unfold handleTargetBridge processCrossNodeForwardLate handleLocalBridgeWait
               simp only [hmm, bne_self_eq_false, Bool.false_eq_true, if_false]
               split
               · split <;> simp
-              · simp
+              · split <;> simp
             simp [attachedTs, Outcome.obsDyn, hns, he']
+      | noRouting =>
+        rcases dyn_none_cases w id req .noRouting with h | h | h
+        · exact absurd h hr
+        · rw [h]; simp [attachedTs, Outcome.obsDyn, handleSourceBridge, he]
+        · rw [h]; simp [attachedTs, Outcome.obsDyn, handleTargetBridge]
       | window m =>
         rcases dyn_none_cases w id req (.window m) with h | h | h
         · exact absurd h hr
@@ -84,7 +89,7 @@ theorem C04_main_dyn (w : World) (id : ConnIdent) (req : Req) (ts : TunnelState)
           · simp [Outcome.obsDyn, hat]
           · have hmm := window_attach_mapping hat
             have he' : entitledB w id req (.bridge m false) = true :=
-              entitled_of_passed hwf hc ha (by simpa [tunnelMappingID] using hmm)
+              entitled_of_passed hwf hf ha (by simpa [tunnelMappingID] using hmm)
             have hns := window_attach_not_source w req m
             simp [attachedTs, Outcome.obsDyn, hns, he']
 
@@ -93,7 +98,7 @@ the bridge it creates, or the tunnel that appears while it polls — it is authe
 tunnel's mapping. -/
 theorem attach_entitled_dyn (w : World) (id : ConnIdent) (req : Req) (ts : TunnelState) (late : Late)
     (hwf : identWF id = true) (h : (openTunnelDyn w id req ts late).attach ≠ .none) :
-    id.authenticated = true ∧
+    provenClient id ≠ 0 ∧
     entitledB w id req (attachedTs ts late (openTunnelDyn w id req ts late).attach) = true := by
   have hm := C04_main_dyn w id req ts late hwf
   unfold holdsDyn at hm
@@ -106,36 +111,36 @@ theorem attach_entitled_dyn (w : World) (id : ConnIdent) (req : Req) (ts : Tunne
   refine ⟨?_, he⟩
   unfold entitledB at he
   simp only [Bool.and_eq_true] at he
-  exact he.1.1.2
+  simpa using he.1
 
 /-- Attachment (source, target or forwarded to another node) only for an authenticated, entitled connection. -/
 theorem attach_entitled (w : World) (id : ConnIdent) (req : Req) (ts : TunnelState) (hwf : identWF id = true)
     (h : (openTunnel w id req ts).attach ≠ .none) :
-    id.authenticated = true ∧ entitledB w id req ts = true := by
+    provenClient id ≠ 0 ∧ entitledB w id req ts = true := by
   have hr : openTunnel w id req ts ≠ refuse := by
     intro e; rw [e] at h; exact h rfl
-  obtain ⟨hc, ha, hm⟩ := passed_of_not_refused hr
-  have he := entitled_of_passed hwf hc ha hm
+  obtain ⟨cc, hf, ha, hm⟩ := passed_of_not_refused hr
+  have he := entitled_of_passed hwf hf ha hm
   refine ⟨?_, he⟩
   unfold entitledB at he
   simp only [Bool.and_eq_true] at he
-  exact he.1.1.2
+  simpa using he.1
 
 /-- A success acknowledgement is only ever sent to an entitled connection. -/
 theorem ack_ok_entitled (w : World) (id : ConnIdent) (req : Req) (ts : TunnelState) (hwf : identWF id = true)
     (h : (openTunnel w id req ts).ack = .ok) : entitledB w id req ts = true := by
   have hr : openTunnel w id req ts ≠ refuse := by
     intro e; rw [e] at h; cases h
-  obtain ⟨hc, ha, hm⟩ := passed_of_not_refused hr
-  exact entitled_of_passed hwf hc ha hm
+  obtain ⟨cc, hf, ha, hm⟩ := passed_of_not_refused hr
+  exact entitled_of_passed hwf hf ha hm
 
 /-- A request that is not entitled gets exactly the refusal: failure ack, no attachment, error return. -/
 theorem refuse_acks (w : World) (id : ConnIdent) (req : Req) (ts : TunnelState) (hwf : identWF id = true)
     (h : entitledB w id req ts = false) : openTunnel w id req ts = refuse := by
   by_cases hr : openTunnel w id req ts = refuse
   · exact hr
-  · obtain ⟨hc, ha, hm⟩ := passed_of_not_refused hr
-    rw [entitled_of_passed hwf hc ha hm] at h; cases h
+  · obtain ⟨cc, hf, ha, hm⟩ := passed_of_not_refused hr
+    rw [entitled_of_passed hwf hf ha hm] at h; cases h
 
 /-- Revoked, expired, inactive or unknown mappings never yield an attachment: if the mapping of the addressed
 tunnel is unknown or unusable, the request is refused — whoever asks, whatever is presented. -/
@@ -148,17 +153,16 @@ theorem unusable_mapping_refused (w : World) (id : ConnIdent) (req : Req) (ts : 
   | none => simp
   | some m => simp [h m hg]
 
-/-- A connection that never completed a handshake (no control connection, or one without a client id) is
-refused in every tunnel state — in particular when a bridge is waiting or a route points to another node. -/
+/-- A connection that is not authenticated — no completed handshake and no transport vouching for a client — is
+refused in every tunnel state, in particular when a bridge is waiting or a route points to another node. -/
 theorem unauthenticated_refused (w : World) (id : ConnIdent) (req : Req) (ts : TunnelState)
-    (h : id.hasControl = false ∨ id.clientID = 0) : openTunnel w id req ts = refuse := by
+    (hwf : identWF id = true) (h : provenClient id = 0) : openTunnel w id req ts = refuse := by
   by_cases hr : openTunnel w id req ts = refuse
   · exact hr
-  · obtain ⟨hc, ha, _⟩ := passed_of_not_refused hr
-    rcases h with h | h
-    · rw [h] at hc; cases hc
-    · obtain ⟨m, hA⟩ := auth_sound ha
-      exact absurd h hA.cid_ne
+  · obtain ⟨cc, hf, ha, _⟩ := passed_of_not_refused hr
+    obtain ⟨m, hA⟩ := auth_sound ha
+    have := proven_of_control hwf hf hA.cid_ne
+    exact absurd (this ▸ h) hA.cid_ne
 
 /-- Credentials for one mapping never open a tunnel of another mapping. -/
 theorem other_mapping_refused (w : World) (id : ConnIdent) (req : Req) (m : String) (sv : Bool) (n : String)
@@ -167,17 +171,19 @@ theorem other_mapping_refused (w : World) (id : ConnIdent) (req : Req) (m : Stri
   constructor
   · by_cases hr : openTunnel w id req (.bridge m sv) = refuse
     · exact hr
-    · exact absurd (passed_of_not_refused hr).2.2 (by simpa [tunnelMappingID] using h)
+    · obtain ⟨_, _, _, hm⟩ := passed_of_not_refused hr
+      exact absurd hm (by simpa [tunnelMappingID] using h)
   · by_cases hr : openTunnel w id req (.remote m n) = refuse
     · exact hr
-    · exact absurd (passed_of_not_refused hr).2.2 (by simpa [tunnelMappingID] using h)
+    · obtain ⟨_, _, _, hm⟩ := passed_of_not_refused hr
+      exact absurd hm (by simpa [tunnelMappingID] using h)
 
 /-- The resume-token path attaches nothing (no cloud control implements token validation). -/
 theorem resume_token_refused (w : World) (id : ConnIdent) (req : Req) (ts : TunnelState)
     (h : req.ResumeToken ≠ "") : openTunnel w id req ts = refuse := by
   by_cases hr : openTunnel w id req ts = refuse
   · exact hr
-  · have ha := (passed_of_not_refused hr).2.1
+  · obtain ⟨cc, _, ha, _⟩ := passed_of_not_refused hr
     unfold handleTunnelOpenAuth at ha
     simp [h, resumeTunnel] at ha
 
@@ -198,7 +204,8 @@ theorem canBeAccessedBy_iff (now : Nat) (m : PortMapping) (c : Nat) :
   rw [isValid_iff_usable]
   cases mappingUsable now m <;> cases m.ListenClientID == c <;> rfl
 
-theorem handleExistingBridge_attach (w : World) (req : Req) : (handleExistingBridge w req).attach ≠ .none := by
+theorem handleExistingBridge_attach (w : World) (id : ConnIdent) (req : Req) :
+    (handleExistingBridge w id req).attach ≠ .none := by
   unfold handleExistingBridge
   simp only
   split
@@ -213,7 +220,7 @@ and is forwarded when the tunnel waits on another node. -/
 theorem legit_target_served (w : World) (id : ConnIdent) (m : PortMapping) (tid : String) (sv : Bool) (n : String)
     (hc : id.hasControl = true) (hid : id.clientID = m.TargetClientID) (hne : m.TargetClientID ≠ 0)
     (hf : w.getPortMapping m.ID = some m) (hu : mappingUsable w.now m = true) (hs : m.SecretKey ≠ "")
-    (hn : n ≠ w.nodeID) :
+    (hn : n ≠ w.nodeID) (hreach : w.unreachable.contains n = false) :
     (openTunnel w id ⟨true, m.ID, tid, m.SecretKey, ""⟩ (.bridge m.ID sv)).ack = .ok ∧
     (openTunnel w id ⟨true, m.ID, tid, m.SecretKey, ""⟩ (.bridge m.ID sv)).attach ≠ .none ∧
     openTunnel w id ⟨true, m.ID, tid, m.SecretKey, ""⟩ (.remote m.ID n) = ⟨.ok, .forward n, .switch⟩ := by
@@ -222,12 +229,13 @@ theorem legit_target_served (w : World) (id : ConnIdent) (m : PortMapping) (tid 
     unfold handleTunnelOpenAuth
     simp [hid, hne, hs, hf, hv, validateWithSecretKey]
   have hb : openTunnel w id ⟨true, m.ID, tid, m.SecretKey, ""⟩ (.bridge m.ID sv)
-      = handleExistingBridge w ⟨true, m.ID, tid, m.SecretKey, ""⟩ := by
+      = handleExistingBridge w id ⟨true, m.ID, tid, m.SecretKey, ""⟩ := by
     simp [openTunnel, openTunnelDyn, findControlConnection, hc, ha]
   refine ⟨?_, ?_, ?_⟩
   · rw [hb]; rfl
-  · rw [hb]; exact handleExistingBridge_attach w _
-  · simp [openTunnel, openTunnelDyn, findControlConnection, hc, ha, processCrossNodeForward, hn]
+  · rw [hb]; exact handleExistingBridge_attach w id _
+  · have hmem : ¬ n ∈ w.unreachable := by simpa using hreach
+    simp [openTunnel, openTunnelDyn, findControlConnection, hc, ha, processCrossNodeForward, hn, hmem]
 
 /-! ## A revocation is not undone by other updates of the mapping record -/
 
@@ -264,8 +272,8 @@ theorem asFound_revoke_lost :
 /-- … and the target client presenting the secret is attached to the waiting tunnel: the property fails. -/
 theorem asFound_revoke_lost_witness :
     holdsRevoked (runInterleaved [.usage, .revoke] [.read 0, .read 1, .write 1, .write 0] mM).IsRevoked
-      ((openTunnel ⟨[runInterleaved [.usage, .revoke] [.read 0, .read 1, .write 1, .write 0] mM], 1000, "node-A"⟩
-          ⟨true, 22, true⟩ ⟨true, "M", "verif-tunnel-01", "s3cretM", ""⟩ (.bridge "M" false)).obs (.bridge "M" false))
+      ((openTunnel ⟨[runInterleaved [.usage, .revoke] [.read 0, .read 1, .write 1, .write 0] mM], 1000, "node-A", []⟩
+          ⟨true, 22, true, false, 0⟩ ⟨true, "M", "verif-tunnel-01", "s3cretM", ""⟩ (.bridge "M" false)).obs (.bridge "M" false))
       = false := by decide
 
 -- the same threads, not interleaved, are what `runSerial` says (the interleaved semantics is not vacuous)
@@ -331,7 +339,7 @@ theorem skel_auth : Skel.auth_handleFirstConnection = ["conn.SetClientID", "conn
 
 def wWitness : World :=
   { mappings := [⟨"M", 11, 22, "s3cretM", "active", false, none⟩], now := 1000, nodeID := "node-A" }
-def nobody : ConnIdent := ⟨false, 0, false⟩
+def nobody : ConnIdent := ⟨false, 0, false, false, 0⟩
 def emptyReq : Req := ⟨true, "", "verif-tunnel-01", "", ""⟩
 
 /-- As found: a connection that never sent a handshake and presents nothing is attached as target of a waiting
@@ -347,8 +355,8 @@ theorem asFound_witness_remote :
 
 /-! ## Non-vacuity: the hypotheses are inhabited and the dispatcher does attach entitled connections -/
 
-def listenClient : ConnIdent := ⟨true, 11, true⟩
-def targetClient : ConnIdent := ⟨true, 22, true⟩
+def listenClient : ConnIdent := ⟨true, 11, true, false, 0⟩
+def targetClient : ConnIdent := ⟨true, 22, true, false, 0⟩
 def midReq : Req := ⟨true, "M", "verif-tunnel-01", "", ""⟩
 def secretReq : Req := ⟨true, "M", "verif-tunnel-01", "s3cretM", ""⟩
 
@@ -366,7 +374,7 @@ example : entitledB wWitness targetClient midReq (.bridge "M" false) = false := 
 def wTwo : World :=
   { mappings := [⟨"M", 11, 22, "s3cretM", "active", false, none⟩, ⟨"F", 33, 34, "s3cretF", "active", false, none⟩],
     now := 1000, nodeID := "node-A" }
-def targetOfF : ConnIdent := ⟨true, 34, true⟩
+def targetOfF : ConnIdent := ⟨true, 34, true, false, 0⟩
 def secretReqF : Req := ⟨true, "F", "verif-tunnel-01", "s3cretF", ""⟩
 
 -- the rightful target, polling, joins the bridge of ITS mapping when the listen client opens it
@@ -386,5 +394,25 @@ example : openTunnelDyn wTwo targetClient secretReq .none (.window "M") = ⟨.ok
 example : openTunnelDyn wTwo targetOfF secretReqF .none (.window "M") = ⟨.ok, .none, .err⟩ := by decide
 example : openTunnelDyn wTwo listenClient midReq .none (.window "F") = ⟨.ok, .none, .err⟩ := by decide
 example : holdsDyn wTwo targetOfF secretReqF .none (.window "M") ⟨.ok, .target, true⟩ = false := by decide
+
+/-! ### identity asserted by the transport, configuration, fault points -/
+
+def vouchedTarget : ConnIdent := ⟨false, 0, false, true, 22⟩      -- no handshake; the transport vouches for client 22
+def claimedTarget : ConnIdent := ⟨false, 0, false, false, 22⟩     -- the transport names client 22 but does not vouch
+def vouchedListen : ConnIdent := ⟨false, 0, false, true, 11⟩
+
+example : identWF vouchedTarget = true ∧ provenClient vouchedTarget = 22 ∧ provenClient claimedTarget = 0 := by decide
+-- a vouching transport is as good as a handshake; a mere claim is refused
+example : openTunnel wTwo vouchedTarget secretReq (.bridge "M" false) = ⟨.ok, .target, .switch⟩ := by decide
+example : openTunnel wTwo claimedTarget secretReq (.bridge "M" false) = refuse := by decide
+-- the asserted id decides the side on an existing bridge: the listen client re-attaches as SOURCE
+example : openTunnel wTwo vouchedListen midReq (.bridge "M" true) = ⟨.ok, .source, .switch⟩ := by decide
+example : openTunnel wTwo vouchedListen secretReqF (.bridge "M" true) = refuse := by decide
+-- no routing table on this node: the target side fails at once, nothing attached
+example : openTunnelDyn wTwo targetClient secretReq .none .noRouting = ⟨.ok, .none, .err⟩ := by decide
+example : openTunnelDyn wTwo listenClient midReq .none .noRouting = ⟨.ok, .source, .switch⟩ := by decide
+-- the node holding the bridge cannot be reached: acknowledged, then nothing
+example : openTunnel { wTwo with unreachable := ["node-B"] } targetClient secretReq (.remote "M" "node-B") = ⟨.ok, .none, .err⟩ := by
+  decide
 
 end Tunnox.C04
